@@ -402,6 +402,10 @@ macro_rules! impl_nio_read {
                     }
                     let error_kind = std::io::Error::last_os_error().kind();
                     if error_kind == std::io::ErrorKind::WouldBlock {
+                        if !blocking {
+                            // the caller made the descriptor non-blocking: report EAGAIN, do not wait
+                            break;
+                        }
                         //wait read event
                         left_time = start_time
                             .saturating_add($crate::syscall::recv_time_limit($fd))
